@@ -82,6 +82,14 @@ class Ctx(object):
             return
         self.rules[rid] = {'text': text, 'min': minimum, 'star': star, 'count': 0}
 
+    def mark(self, key, rid):
+        """a helper rule (engine/py/closure.py) registers that it is evaluated for this property - unless its obligations are
+        dropped because the enclosing module is borrowed for other rules only"""
+        if self._alias is None or rid in self._alias:
+            if not hasattr(self, 'helpers_run'):
+                self.helpers_run = set()
+            self.helpers_run.add(key)
+
     def touch(self, fn):
         if self._alias is not None and not getattr(self, '_in_ob', False):
             return      # borrowed module: only functions of the kept rules count (added by ob)
@@ -181,6 +189,8 @@ def run_property(prop, tier, seed, only=None, quiet=False):
     try:
         check_anchors(ctx, mod)
         mod.run(ctx)
+        import closure
+        closure.share(ctx)
         for rid, r in sorted(ctx.rules.items()):
             if r['count'] < r['min'] and not any(o['rule'] == rid and o['status'] == 'violated' for o in ctx.obligations):
                 raise AnalysisBroken('rule %s matched %d instance(s), confirmed minimum is %d - the anchor moved or '
